@@ -513,17 +513,27 @@ def option_sets(scratch):
         "read-trigger": ["-T", "fd@read=proc/statm", "-T", "fc@read=proc/statm", "-T", "f1@read=proc/statm", "-T", "f3@read=page-fault"],
         "args-g": ["-A", "g@arg1/s", "-A", "q@arg1/s"],
         "args-f8": ["-A", "f8@arg1/s"],
+        "args-fa": ["-A", "fa@arg1/s"],
     }
 
 
-def compile_prog(workdir, name, src, mode, opt):
+def have_avx():
+    try:
+        return " avx2 " in open("/proc/cpuinfo").read()
+    except OSError:
+        return False
+
+
+def compile_prog(workdir, name, src, mode, opt, cflags=()):
     c = os.path.join(workdir, name + ".c")
     if not os.path.exists(c):
         open(c, "w").write(src)
     exe = os.path.join(workdir, "%s.%s%s" % (name, mode, opt))
     if os.path.exists(exe):
         return exe
-    cmd = ["gcc", opt, "-g", "-w"] + G.MODES[mode][0] + ["-o", exe + ".tmp", c, "-lm", "-pthread"]
+    if "__m256d" in src and not cflags:
+        cflags = ["-mavx2"]
+    cmd = ["gcc", opt, "-g", "-w"] + list(cflags) + G.MODES[mode][0] + ["-o", exe + ".tmp", c, "-lm", "-pthread"]
     rc, out, err = sh(cmd, timeout=120)
     if rc != 0:
         raise RuntimeError("generated program does not compile (%s %s): %s" % (mode, opt, err[-1500:]))
@@ -603,12 +613,14 @@ def e2e_plan(ctx):
         threads = 4 if pi % 3 == 1 else 1
         classes = None if pi % 2 == 0 else rng.sample(list(G.CLASSES), 3) + ["vector"]
         params = {"seed": rng.getrandbits(40), "nfn": rng.choice([6, 8, 10]), "threads": threads,
-                  "classes": classes, "stress": pi % 2 == 0}
+                  "classes": classes, "stress": pi % 2 == 0, "avx": have_avx() and pi % 3 == 2}
         runs = []
         # the vector/script and vector/args combinations are the class of the fixed defect: always present
         combos = [("pg", "-O2", "script", False), ("fentry", "-O2", "args", False)] if pi < 2 else []
         while len(combos) < per:
-            mode = rng.choice([m for m in G.MODES if m != "fentry-nested"])
+            # -pg + stack realignment (AVX spills) is the known finding pg-drap-realigned-stack: AVX programs
+            # use the other three methods
+            mode = rng.choice([m for m in G.MODES if m != "fentry-nested" and not (params["avx"] and m == "pg")])
             oset = rng.choice(osets)
             if mode == "cyg" and oset in ("args", "auto-args", "recover"):
                 oset = "plain"
@@ -621,7 +633,7 @@ def make_prog(params):
     import random
     rng = random.Random(params["seed"])
     return G.gen_program(rng, nfn=params["nfn"], threads=params["threads"], classes=params["classes"],
-                         stress_regs=params["stress"])
+                         stress_regs=params["stress"], avx=params.get("avx", False))
 
 
 def e2e(ctx, objdir):
@@ -635,6 +647,8 @@ def e2e(ctx, objdir):
     cdir = os.path.join(VERIF, "corpus", "C01")
     for ci, fn in enumerate(sorted(f for f in os.listdir(cdir) if f.endswith(".json")) if os.path.isdir(cdir) else []):
         c = json.load(open(os.path.join(cdir, fn)))
+        if c.get("needs_avx") and not have_avx():
+            continue
         key = "c%d" % ci
         sources[key] = c["source"]
         jobs.append((key, {"corpus": c["name"], "seed": c["name"], "threads": 1}, c["source"],
@@ -712,6 +726,9 @@ def known_findings(ctx, objdir, work, osets):
     kdir = os.path.join(VERIF, "corpus", "C01", "known")
     for fn in sorted(os.listdir(kdir)) if os.path.isdir(kdir) else []:
         c = json.load(open(os.path.join(kdir, fn)))
+        if c.get("needs_avx") and not have_avx():
+            ctx.log("known finding %s needs an AVX machine: witness skipped" % c["key"])
+            continue
         exe = compile_prog(work, "k_" + c["name"], c["source"], c["mode"], c["opt"])
         dd = os.path.join(work, "k." + c["name"])
         nat = run_native(exe, dd + ".nat")
